@@ -31,8 +31,10 @@ T = {
  "C13-2": ("C13", "register_block overwrites (`insert`) instead of keeping the first registration", "two live instances; the later-opened instance is the victim"),
  "C15-1": ("C15", "recovery counts an entry only if another header fits behind it", "a block filled to within 255 bytes of its limit, restart, count"),
  "C15-2": ("C15", "read_next decrements the count only when the cursor is persisted", "AtLeastOnce{persist_every > 1}, consuming read_next from a sealed block"),
+ "C15-3": ("C15", "count rebuild at open: full-vs-partial decided for EVERY block of the chain by the tail cursor's offset (one merged loop)", "a topic spanning two or more blocks, a durable tail cursor whose offset is smaller than an earlier block's `used`, restart: the count is too high"),
  "C17-1": ("C17", "persisted-generation watermark taken from the live state", "two opposite marker changes on one topic within one marker-file write of the background persister"),
  "C17-2": ("C17", "store generation guard + lazy hydration of clean records", "three sessions: clean, restart, dirty, restart"),
+ "C17-3": ("C17", "flush_all (run by Drop) persists only dirty records ('a topic without a marker reads as clean')", "a dirty marker already on disk, mark_topic_clean, drop within the persister's latency, reopen: reports dirty"),
  "C18-1": ("C18", "duplicate CreateTopic overwrites segment 1's leader before reporting EXISTS", "CreateTopic for an existing topic with a different initial leader"),
  "C18-2": ("C18", "rollover rejected for overflow has already recorded the seal", "a rollover whose count overflows the cumulative offset"),
  "C06-3": ("C06", "recovery block-size arithmetic `need / UNIT + 1` (the mechanism of C07-2, written independently for this property)", "first entry of a block with header+payload an exact multiple of the block size, a non-empty block right after it, restart"),
